@@ -53,15 +53,68 @@ pub fn join_maps(maps: &[Vec<(Vec<u8>, Vec<u8>)>]) -> Vec<u8> {
     out
 }
 
+/// standard base64 with padding (own encoder: the text form of a byte string, built without the crate)
+pub fn base64(b: &[u8]) -> String {
+    const T: &[u8; 64] = b"ABCDEFGHIJKLMNOPQRSTUVWXYZabcdefghijklmnopqrstuvwxyz0123456789+/";
+    let mut s = String::with_capacity((b.len() + 2) / 3 * 4);
+    for c in b.chunks(3) {
+        let n = (c[0] as u32) << 16 | (*c.get(1).unwrap_or(&0) as u32) << 8 | *c.get(2).unwrap_or(&0) as u32;
+        s.push(T[(n >> 18) as usize & 63] as char);
+        s.push(T[(n >> 12) as usize & 63] as char);
+        s.push(if c.len() > 1 { T[(n >> 6) as usize & 63] as char } else { '=' });
+        s.push(if c.len() > 2 { T[n as usize & 63] as char } else { '=' });
+    }
+    s
+}
+
+/// BIP174 preimage pairs (input key types 0x0a RIPEMD160, 0x0b SHA256, 0x0c HASH160, 0x0d HASH256): the key data of an
+/// ACCEPTED or library-produced pair must be the hash of the value in the byte order the BIP defines (the digest as the
+/// hash function outputs it). SHA-256 based ones use the harness's own SHA-256.
+fn preimage_pair_ok(key: &[u8], value: &[u8]) -> bool {
+    use elements::hashes::{hash160, ripemd160, Hash as _};
+    if key.is_empty() {
+        return true;
+    }
+    let h: Vec<u8> = match key[0] {
+        0x0a => ripemd160::Hash::hash(value).to_byte_array().to_vec(),
+        0x0b => crate::oracle::sha256::sha256(value).to_vec(),
+        0x0c => hash160::Hash::hash(value).to_byte_array().to_vec(),
+        0x0d => crate::oracle::sha256::sha256d(value).to_vec(),
+        _ => return true,
+    };
+    key[1..] == h[..]
+}
+
 /// Oracle on one byte string. `must_reject`: Some(reason) if the mutation class must be refused.
 pub fn check_bytes(r: &Report, b: &[u8], origin: &str, must_reject: Option<&str>) {
     r.trans(1);
     crate::engine::crash::crumb("pset-decode", b);
     let res = guard(|| -> Result<bool, String> {
+        // the base64 text entry point must agree with the byte decoder on acceptance and on the value
+        let via_text = Pset::from_str(&base64(b)).ok();
         let p = match deserialize::<Pset>(b) {
-            Err(_) => return Ok(false),
+            Err(_) => {
+                if via_text.is_some() {
+                    return Err("base64 text form accepted although the byte decoder rejects the same bytes".into());
+                }
+                return Ok(false);
+            }
             Ok(p) => p,
         };
+        if via_text.as_ref() != Some(&p) {
+            return Err("base64 text form rejected or decoded differently from the same bytes".into());
+        }
+        // accepted preimage pairs are hash -> preimage in BIP174 byte order
+        if let Some(maps) = split_maps(b) {
+            let n_in = maps.first().and_then(|g| g.iter().find(|(k, _)| k == &vec![0x04u8])).map(|(_, v)| v.first().copied().unwrap_or(0) as usize).unwrap_or(0);
+            for m in maps.iter().skip(1).take(n_in) {
+                for (k, v) in m {
+                    if !preimage_pair_ok(k, v) {
+                        return Err(format!("preimage pair accepted whose key is not the hash of its value (key type {:02x})", k[0]));
+                    }
+                }
+            }
+        }
         let b1 = serialize(&p);
         let p1 = deserialize::<Pset>(&b1).map_err(|e| format!("canonical re-encoding is rejected: {:?}", e))?;
         if p1 != p {
